@@ -109,7 +109,13 @@ def reverse_iter_lines(file_obj, blocksize=DEFAULT_BLOCKSIZE, preseek=True, enco
             yield line.decode(encoding) if encoding else line
         buff = lines[0]
     if buff:
-        yield buff.decode(encoding) if encoding else buff
+        # whatever is left may still hold several lines (e.g. a file that
+        # starts with a blank line, or a single line with a trailing newline)
+        lines = buff.splitlines()
+        if buff[-1:] == newline_bytes:
+            lines.append(empty_bytes)
+        for line in lines[::-1]:
+            yield line.decode(encoding) if encoding else line
 
 
 
